@@ -7,7 +7,10 @@ use std::collections::HashMap;
 use std::fs::File;
 use std::io::{BufRead, BufWriter, Write};
 use std::sync::Arc;
+#[cfg(not(kmertools_verif))]
 use std::sync::Mutex;
+#[cfg(kmertools_verif)]
+use verif_rt::sync::Mutex;
 
 const NUMBER_SIZE: usize = 8;
 const GB_4: usize = 4 * (1 << 30);
